@@ -53,8 +53,8 @@ pub fn seeds(thorough: bool) -> Vec<Seed> {
             v.push(Seed { bytes: ref_encode(&lm, Some(&raw)), label: format!("{}+{}tail", a.kind(), t.len()) });
         }
     }
-    // pairs over the reduced menu (thorough: full menu), short values, 2 tails
-    let pm: Vec<&L> = (if thorough { &full } else { &reduced }).iter().filter(|a| value_bytes(a, &[0; 12]).len() <= 40).collect();
+    // pairs over the reduced menu, short values; quick: one alternating tail per pair, thorough: both tails
+    let pm: Vec<&L> = reduced.iter().filter(|a| value_bytes(a, &[0; 12]).len() <= 40).collect();
     for (i, a) in pm.iter().enumerate() {
         for (j, b) in pm.iter().enumerate() {
             let ts = if thorough { vec![vec![], vec![L::Sha, L::Fp]] } else if (i + j) % 2 == 0 { vec![vec![]] } else { vec![vec![L::Sha, L::Fp]] };
